@@ -684,3 +684,48 @@ MUTANTS += [
     B("c09-inlined-sort-passes-not-chained", ["C09", "C14"], UT, _SORT_DUP_OLD,
       _sort_dup_inline().replace("        next_pass = sorted_list.copy()\n", "        next_pass = z3_int_list.copy()\n")),
 ]
+
+MUTANTS += [
+    # ---- sixth wave: R-CUMUL shares, exact R-WEIGHTED stream, R-SOLVER-READONLY registry mutations, R-NAMES-RESOLVE,
+    #      R-JSON-FIELDS serializers, exact user horizon, R-NAME-ORDER; rules shared with C05 C11 ----
+    B("c02-unit-productivity-floored-at-one", ["C02"], RS,
+      "                productivity=productivities[i],", "                productivity=max(productivities[i], 1),"),
+    B("c02-every-unit-gets-the-first-share", ["C02"], RS,
+      "                productivity=productivities[i],", "                productivity=productivities[0],"),
+    T("c02-twin-unit-productivity-through-a-local", ["C02"], RS,
+      "        self._cumulative_workers = [\n            Worker(", "        shares = productivities\n        self._cumulative_workers = [\n            Worker("),
+    B("c05-optional-constraint-asserted-as-an-equivalence", ["C05", "C10"], CN,
+      "            self.append_z3_assertion(z3.Implies(self._applied, list_of_z3_assertions))",
+      "            self.append_z3_assertion(self._applied == list_of_z3_assertions)"),
+    B("c15-weighted-objective-asserted-non-negative", ["C15", "C07"], SV,
+      "        # create an indicator\n        equivalent_indicator = IndicatorFromMathExpression(",
+      "        self.append_z3_assertion(equivalent_single_objective >= 0)\n        # create an indicator\n        equivalent_indicator = IndicatorFromMathExpression("),
+    B("c13-solver-pops-the-problem-registries", ["C13"], SV,
+      "        # create an indicator\n        equivalent_indicator = IndicatorFromMathExpression(",
+      "        self.problem.indicators.pop(\"EquivalentIndicator\", None)\n        self.problem.objectives.pop(\"MinimizeEquivalentObjective\", None)\n        # create an indicator\n        equivalent_indicator = IndicatorFromMathExpression("),
+    B("c13-solver-clears-the-objectives-after-use", ["C13"], SV,
+      "        self._objective = equivalent_objective\n", "        self._objective = equivalent_objective\n        self.problem.objectives.clear()\n"),
+    B("c17-numpy-alias-dropped", ["C17"], PL,
+      "    import numpy as np\n", "    from numpy import linspace\n"),
+    B("c16-task-serializer-adds-a-key", ["C16"], TK,
+      "    def set_assertions(self, list_of_z3_assertions: List[z3.BoolRef]) -> None:",
+      "    @model_serializer(mode=\"wrap\")\n    def ser_model(self, handler):\n        exported = handler(self)\n        exported[\"nb_resources\"] = len(self._required_resources)\n        return exported\n\n    def set_assertions(self, list_of_z3_assertions: List[z3.BoolRef]) -> None:"),
+    B("c16-cost-function-field-excluded", ["C16"], FN,
+      "class ConstantFunction(Function):\n", "class ConstantFunction(Function):\n    unit: str = Field(default=\"\", exclude=True)\n"),
+    B("c07-user-horizon-pins-the-horizon-variable", ["C07"], PB,
+      "            self.append_z3_assertion(self._horizon <= self.horizon)", "            self.append_z3_assertion(self._horizon == self.horizon)"),
+    T("c07-twin-user-horizon-bound-flipped", ["C07", "C01"], PB,
+      "            self.append_z3_assertion(self._horizon <= self.horizon)", "            self.append_z3_assertion(self.horizon >= self._horizon)"),
+    B("c14-objectives-handed-in-name-order", ["C14"], SV,
+      "                for obj in self.problem.objectives.values():\n                    variable_to_optimize = obj._target",
+      "                for _, obj in sorted(self.problem.objectives.items()):\n                    variable_to_optimize = obj._target"),
+    B("c14-objectives-sorted-by-a-name-key", ["C14"], SV,
+      "                for obj in self.problem.objectives.values():\n                    variable_to_optimize = obj._target",
+      "                for obj in sorted(self.problem.objectives.values(), key=lambda o: o.name):\n                    variable_to_optimize = obj._target"),
+    T("c14-twin-objectives-through-a-list", ["C14", "C07", "C15"], SV,
+      "                for obj in self.problem.objectives.values():\n                    variable_to_optimize = obj._target",
+      "                for obj in list(self.problem.objectives.values()):\n                    variable_to_optimize = obj._target"),
+    B("c11-start-lower-bound-only-without-release-date", ["C11", "C01", "C12"], TK,
+      "        assertions = [\n            self._end - self._start == self.duration,\n            self._start >= 0,\n        ]",
+      "        assertions = [\n            self._end - self._start == self.duration,\n        ]\n        if self.release_date is None:\n            assertions.append(self._start >= 0)"),
+]
